@@ -400,6 +400,7 @@ class Mapper:
 
 
 _DRV = None
+_POOL = None
 
 
 def _big_stack():
@@ -507,12 +508,14 @@ def _analyse(c, i):
     for peer, j, t, inst in m.accepted:
         acc.setdefault((peer, j // per_port), []).append((t, inst))
 
+    def accepted_all(e):
+        # local ports are re-used (a reset connection leaves no TIME_WAIT): match the accept hook by time as well; an IPv4 and an
+        # IPv6 client may have the same local port at the same time (the accept hook does not tell the family)
+        return {inst for t, inst in acc.get((e[X_LOCAL], e[X_PORT]), ()) if e[X_T0] <= t <= e[X_T1]}
+
     def accepted_by(e):
-        # local ports are re-used (a reset connection leaves no TIME_WAIT): match the accept hook by time as well
-        for t, inst in acc.get((e[X_LOCAL], e[X_PORT]), ()):
-            if e[X_T0] <= t <= e[X_T1]:
-                return inst
-        return None
+        a = accepted_all(e)
+        return min(a) if a else None
 
     def read_by(e):
         for t, inst in reqs.get(e[X_LOCAL], ()):
@@ -534,9 +537,9 @@ def _analyse(c, i):
     wrong_who = []
     for e in reqs_ex:
         if e[X_RES] == 0 and e[X_SEQ] == 0:
-            a = accepted_by(e)
-            if a is not None and e[X_WHO] != a + 1:
-                wrong_who.append((e, a))
+            a = accepted_all(e)
+            if len(a) == 1 and e[X_WHO] != min(a) + 1:
+                wrong_who.append((e, min(a)))
     # keep-alive: once an instance has set its shutdown flag it answers at most one more request per connection
     per_conn = {}
     for e in exs:
@@ -554,7 +557,14 @@ def _analyse(c, i):
               ka_spanning=sum(1 for (cid, w), v in per_conn.items() if v), v6_complete=sum(1 for e in reqs_ex if e[X_RES] == 0 and e[X_V6]))
     # a point that is no step of the model ends the part of the log the model can check
     cut = next((n for n, (lb, _o) in enumerate(entries) if lb[1][0] == ("N", 9)), len(entries))
-    an["check"] = model_check(nl, entries[:cut])
+    # the trace check runs beside the other checks (a pool of model-driver processes); its result is awaited where it is needed
+    global _POOL, _DRV
+    if _DRV is None:
+        _DRV = kv.build_model_driver()
+    if _POOL is None:
+        from concurrent.futures import ThreadPoolExecutor
+        _POOL = ThreadPoolExecutor(max_workers=6)
+    an["check_f"] = _POOL.submit(model_check, nl, entries[:cut])
     an["cut"] = cut
     c.meta["an"] = an
     return an
@@ -586,7 +596,7 @@ def compare(c, i, m):
     return summary(c, an) == ms and mm[3] == 1 and all(mm[4])
 
 
-def complaints(c, i):
+def complaints(c, i, fast=False):
     """[(timing, text)]: timing = the complaint is that something did not happen within a time limit (it is confirmed by a second
     run before it becomes a verdict, see is_trouble)"""
     if c.meta.get("kind") == "malformed":
@@ -599,6 +609,8 @@ def complaints(c, i):
         return []
     if "crash" in an:
         return [(False, "the run's output could not be analysed: " + an["crash"])]
+    if "why" in an:
+        return an["why"]
     r = an["r"]
     k = c.meta["k"]
     why = []
@@ -690,7 +702,11 @@ def complaints(c, i):
                 break
     if not r["refuses_after"]:
         why.append((False, "a port still accepts after every instance was shut down"))
+    if fast:
+        return why
     # (b) trace inclusion: the model accepts the log, and every port is served in every state along it
+    if "check" not in an:
+        an["check"] = an["check_f"].result()
     chk = an["check"]
     if an["unknown"]:
         name, inst = an["unknown"][0]
@@ -710,6 +726,12 @@ def complaints(c, i):
             why.append((False, "the model stopped after %d of %d log entries" % (acc, an["cut"])))
         if unserved:
             why.append((False, "running the log through the model: some listener's port is served by no instance after entry %d" % (unserved - 1)))
+    # the verdict of this output is final: keep it, let the log go (a thorough run holds hundreds of them)
+    an["why"] = why
+    an["n_entries"] = len(an["entries"])
+    an["entries"] = an["src"] = None
+    r["events"] = r["exchanges"] = None
+    an.pop("check_f", None)
     return why
 
 
@@ -738,6 +760,9 @@ def is_trouble(c, i):
             return False
         if an["r"]["stalled"] != 0:
             return True
+    why = complaints(c, i, fast=True)
+    if not why or not all(t for t, _ in why):
+        return False
     why = complaints(c, i)
     if why and all(t for t, _ in why):
         if i.startswith("(L (N 94)"):
@@ -879,7 +904,7 @@ def extra_coverage(cases, impl, model, spec):
         tot["ipv6_complete"] += an["v6_complete"]
         tot["kernel_queue_resets"] += an["kernel_reset"]
         tot["refused"] += len(an["refused"])
-        tot["log_entries"] += len(an["entries"])
+        tot["log_entries"] += an.get("n_entries") or len(an["entries"] or ())
         tot["late_waiters_resolved"] += sum(1 for w in an["r"]["waiters"] if w[3])
         tot["probes"] += sum(p[P_CNT] for p in an["r"]["probes"])
         tot["idle_connections_closed_by_the_server"] += sum(1 for e in an["idle"] if e[X_RES] == 10)
